@@ -542,6 +542,22 @@ impl TcpConnection {
         .map(|connection| connection.peer)
     }
 
+    /// Verification hook: run [`TcpConnection::negotiate_protocol`] (multistream-select under
+    /// the substream-open timeout, as `open_substream` / `accept_substream` call it) on any byte
+    /// stream. Adds code only.
+    #[cfg(feature = "verif")]
+    pub async fn verif_negotiate_protocol<S: AsyncRead + AsyncWrite + Unpin>(
+        stream: S,
+        dialer: bool,
+        protocols: Vec<String>,
+        timeout: Duration,
+    ) -> Result<(Negotiated<S>, ProtocolName), NegotiationError> {
+        let role = if dialer { Role::Dialer } else { Role::Listener };
+        let names = protocols.iter().map(|protocol| &**protocol).collect::<Vec<&str>>();
+
+        Self::negotiate_protocol(stream, &role, names, timeout).await
+    }
+
     /// Handles the yamux substream.
     ///
     /// Returns `true` if the connection handler should exit.
